@@ -117,6 +117,7 @@ def alias_rule(ctx, pid, rels):
         mod = core.module(rel)
         ctx.saw(mod)
         alias.check(ctx, pid, mod)
+        alias.check_arguments(ctx, pid, mod)
 
 
 def hazard_rule(ctx, pid):
@@ -140,3 +141,31 @@ def pos_multiple(x, want):
         return x.is_zero()
     r = x / want
     return r.is_const() and r.const_value() > 0
+
+
+# widest relative tolerance of a guard whose special path may return something else than the general formula: inputs that
+# close to the special case are not told apart by the properties (shell bounds are kept 1e-9 away from lattice points, ...)
+GUARD_TOLERANCE = 1e-9
+
+
+def fast_path_rule(ctx, key, where, run, same):
+    """`run(ev_setup)` evaluates the function with an evaluator prepared by ev_setup(ev); -> the value on the GENERAL path
+    (every tolerance guard answered False).  For each guard met the function is evaluated again with that guard true: the
+    special path must return the same value as the general one (a pure shortcut), unless the guard is narrower than
+    GUARD_TOLERANCE.  `same(a, b)` compares two results."""
+    met = []
+
+    def generic(ev):
+        ev.close_policy = lambda g: (met.append(g) if g["key"] not in [m["key"] for m in met] else None) or False
+    general = run(generic)
+    for g in list(met):
+        def special(ev, g=g):
+            ev.close_policy = lambda h: h["key"] == g["key"]
+        fast = run(special)
+        width = max(float(g["rtol"]), float(g["atol"]))
+        ok = same(general, fast) or width <= GUARD_TOLERANCE
+        ctx.check(ok, "%s:fast-path:%d" % (key, len([m for m in met if m["line"] <= g["line"]])),
+                  "when `%s` holds (inputs within rtol=%g / atol=%g of the special case) the function returns something else than its "
+                  "general formula: every input in that band gets the special value, an error of the order of the tolerance"
+                  % (g["text"], float(g["rtol"]), float(g["atol"])), where, sample={"guard": g["text"], "rtol": float(g["rtol"]), "atol": float(g["atol"])})
+    return general
